@@ -4,11 +4,13 @@ CONSTANTS
   HeadTokens = {1, 2, 3, 6, 7, 8}
   MaxPfxLen = 1
   MaxCmdLen = 1
-  CrossHeads = TRUE
+  CrossHeads = FALSE
   ArgTokens = {1, 2, 3, 4, 5, 6, 7, 8}
   MaxArgs = 3
   MaxLen = 1
-  Variants = {"pinned", "fixed", "strict"}
+  CutLen = 6
+  FollowUp = TRUE
+  Variants = {"pinned", "fixed", "strict", "cut512"}
 INVARIANT TypeOK
 INVARIANT Conforms
 INVARIANT SentIsOneLine
